@@ -171,7 +171,8 @@ impl From<&dyn EntryTrait> for KindMetadata {
             },
             Kind::Dir => KindMetadata::Dir,
             Kind::Symlink => KindMetadata::Symlink {
-                target: entry.symlink_target().unwrap().to_owned(),
+                // A damaged index can hold a symlink entry without a target.
+                target: entry.symlink_target().unwrap_or_default().to_owned(),
             },
             Kind::Unknown => panic!("unexpected Kind::Unknown on {:?}", entry.apath()),
         }
